@@ -4,6 +4,8 @@ Decided: the structural clauses C19.a–g below (necessary conditions). Not deci
 history) selects — that is arithmetic over run-time sizes, blob bytes and the wall clock."""
 from rules.engine import (origins, origin_callees, deep_origins, short, hir_walk, hir_expr_str, hir_sites, pat_str,
                           control_deps_transitive, switch_condition)
+import re
+
 from rules import anchors as A
 
 EXPLANATION = (
@@ -56,7 +58,7 @@ def _cmp_in(g):
     for b in g.blocks:
         for st in b["stmts"]:
             if st["k"] == "assign" and st["rv"]["k"] == "bin" and st["rv"]["op"] in ("Le", "Lt", "Ge", "Gt", "Eq", "Ne"):
-                out.append((st["rv"]["op"], origins(g, st["rv"]["a"], extra_pass=("::from",)), origins(g, st["rv"]["b"], extra_pass=("::from",))))
+                out.append((st["rv"]["op"], origins(g, st["rv"]["a"], extra_pass=()), origins(g, st["rv"]["b"], extra_pass=())))
     return out
 
 
@@ -227,11 +229,13 @@ def c19abcd(prog, R):
             continue
         nx, sw, some_bb = nexts[0]
         # iterated collection = the sorted one, sort dominates the loop
-        it_roots = {(o.kind, o.what, o.bb) for o in origins(f, nx.args[0], extra_pass=("IntoIterator>::into_iter", "::iter"))}
+        # order-preserving adaptors only (a `.rev()` in the chain must not be seen through)
+        ORDER_KEEPING = (re.compile(r"(slice|Vec|Iterator)::(iter|copied|cloned|by_ref|as_slice)$"),)
+        it_roots = {(o.kind, o.what, o.bb) for o in origins(f, nx.args[0], extra_pass=ORDER_KEEPING)}
         ok = False
         keyok = False
         for sc in sorts:
-            s_roots = {(o.kind, o.what, o.bb) for o in origins(f, sc.args[0], extra_pass=("DerefMut>::deref_mut",))}
+            s_roots = {(o.kind, o.what, o.bb) for o in origins(f, sc.args[0], extra_pass=())}
             if s_roots & it_roots and f.dominates(sc.bb, nx.bb):
                 ok = True
                 g = _closure_of(prog, sc)
